@@ -517,7 +517,13 @@ def check_coll(recipe) -> list[Fail]:
                             pass
             finally:
                 try:
-                    cm.__exit__(None, None, None)
+                    if sess.get("abort") and mode == "w" and pending_bad is None and not fails:
+                        # the with-block is left through an exception of the caller's own: the puts that succeeded before it stay stored
+                        boom = RuntimeError("caller's own exception inside the session")
+                        if cm.__exit__(RuntimeError, boom, None):
+                            fails.append(Fail("coll:session-swallows-callers-exception", f"session {si}"))
+                    else:
+                        cm.__exit__(None, None, None)
                 except Exception as e:
                     exit_exc = e
             if fails:
@@ -584,6 +590,8 @@ def classify_coll(recipe):
     if any(op[0] == "put" for s_ in recipe["sessions"] if s_["mode"] == "r" for op in s_["ops"]):
         labels.append("put_inside_reading_session")
     labels.append(f"comment={COMMENTS[recipe.get('comment', 0)]!r}")
+    if any(s_.get("abort") for s_ in wsess):
+        labels.append("write_session_left_through_an_exception")
     if dup:
         labels.append("duplicate_put")
     if over:
@@ -604,7 +612,7 @@ def strat_coll(tier):
         st.just(["flush"]),
     )
     sess = st.fixed_dictionaries(
-        {"h": st.integers(0, 2), "mode": st.sampled_from(["w", "w", "r"]), "ops": st.lists(op, max_size=8 if tier == "quick" else 14)}
+        {"h": st.integers(0, 2), "mode": st.sampled_from(["w", "w", "r"]), "ops": st.lists(op, max_size=8 if tier == "quick" else 14), "abort": st.sampled_from([False, False, True])}
     )
     return st.fixed_dictionaries(
         {"comment": st.integers(0, len(COMMENTS) - 1), "handles": st.lists(hd, min_size=1, max_size=3), "sessions": st.lists(sess, min_size=1, max_size=6 if tier == "quick" else 10)}
